@@ -116,6 +116,7 @@ type tScreen struct {
 	h            int
 	w            int
 	fini         bool
+	ttyClosed    bool
 	cells        CellBuffer
 	buffering    bool // true if we are collecting writes to buf instead of sending directly to out
 	buf          bytes.Buffer
@@ -2222,6 +2223,19 @@ func (t *tScreen) disengage() {
 	t.disableFocusReporting()
 
 	_ = t.tty.Stop()
+	if t.fini {
+		// close before the lock is dropped: a concurrent call must
+		// not be able to write to the terminal we just restored
+		t.closeTty()
+	}
+}
+
+// closeTty closes the tty, once.  It is called with the lock held.
+func (t *tScreen) closeTty() {
+	if !t.ttyClosed {
+		t.ttyClosed = true
+		_ = t.tty.Close()
+	}
 }
 
 // Beep emits a beep to the terminal.
@@ -2236,7 +2250,9 @@ func (t *tScreen) Beep() error {
 // to it's initial state.  It should not be called more than once.
 func (t *tScreen) finalize() {
 	t.disengage()
-	_ = t.tty.Close()
+	t.Lock()
+	t.closeTty()
+	t.Unlock()
 }
 
 func (t *tScreen) StopQ() <-chan struct{} {
